@@ -90,6 +90,13 @@ type Property interface {
 	Assumptions() []string
 }
 
+// Refiner is an optional second minimisation stage on the materialised scenario (after tape
+// shrinking): it receives a function that re-executes a candidate scenario and reports whether the
+// same violation class persists, and returns a simpler scenario plus notes for the replay file.
+type Refiner interface {
+	Refine(env *Env, data json.RawMessage, class string, stillFails func(json.RawMessage) bool) (json.RawMessage, []string)
+}
+
 type Finding struct {
 	Status    string            `json:"status"` // "open" or "fixed"
 	Property  string            `json:"property"`
@@ -355,6 +362,27 @@ func Check(env *Env, prop Property, tier string, verifSeed uint64, workers int) 
 			_ = min
 			shrinkLog = append(shrinkLog, fmt.Sprintf("tape %d -> %d draws in %d evaluations; scenario %d -> %d bytes",
 				len(f.tape), len(bestTape), evals, len(f.data), len(bestData)))
+			if rf, ok := prop.(Refiner); ok && len(res.Violations) < 3 {
+				refineDeadline := time.Now().Add(5 * time.Minute)
+				nd, notes := rf.Refine(env, bestData, class, func(c json.RawMessage) bool {
+					if time.Now().After(refineDeadline) {
+						return false
+					}
+					out, err := runOne(env, prop, c, tier, &st, 1)
+					if err != nil || out == nil {
+						return false
+					}
+					if hasClass(out, class) != nil {
+						bestOut = out
+						return true
+					}
+					return false
+				})
+				if nd != nil {
+					bestData = nd
+				}
+				shrinkLog = append(shrinkLog, notes...)
+			}
 			// confirm by two fresh replays of the materialised scenario (no PRNG involved)
 			for k := 0; k < 2; k++ {
 				out, err := runOne(env, prop, bestData, tier, &st, 1+3*k)
